@@ -63,7 +63,7 @@ template <class T> static void run_T(Choice &c, Ctx &cx)
     if (e.call() || !(e.info == 0)) { cx.label("base-call-not-clean"); if (!e.aborted) e.teardown(); vf_purge(); return; }
     long live_before = vf_live_blocks();
 
-    std::string what; long long got = 0, want = 0; bool applicable = true;
+    std::string what; long long got = 0, want = 0; bool applicable = true; const char *fact_note = "";
     // argument objects that corruptions act on (copies of the structs so the originals stay valid for teardown)
     SuperMatrix A = e.A.A, B = e.Bv.X, X = e.Xv.X, L = e.L, U = e.U;
     DNformat Bs = *(DNformat *)B.Store, Xs = *(DNformat *)X.Store; B.Store = &Bs; X.Store = &Xs;
@@ -105,6 +105,10 @@ template <class T> static void run_T(Choice &c, Ctx &cx)
         else if (k <= 17) { static const int bk[] = {MB_NEGCOL, MB_LDA, MB_STYPE, MB_DTYPE, MB_MTYPE}; applicable = corrupt_matrix<T>(&B, bk[k - 13], n) && (nrhs > 0 || bk[k - 13] == MB_NEGCOL); want = -13; what = std::string("B:") + mbname[bk[k - 13]]; }
         else if (k <= 20) { static const int xk[] = {MB_LDA, MB_STYPE, MB_DTYPE}; applicable = corrupt_matrix<T>(&X, xk[k - 18], n) && nrhs > 0; want = -14; what = std::string("X:") + mbname[xk[k - 18]]; }
         else { X.ncol = B.ncol + 1; want = -14; what = "X.ncol != B.ncol"; applicable = nrhs > 0; }
+        // "an otherwise valid call" includes the calls that re-use what the base call produced: for the late arguments
+        // (lwork, B, X) the base is also run with Fact = FACTORED (equed, R, C as returned), SamePattern_SameRowPerm, SamePattern
+        if (k >= 12) { static const fact_t fm[] = {DOFACT, FACTORED, SamePattern_SameRowPerm, SamePattern}; static const char *fn[] = {"", " [Fact=FACTORED]", " [Fact=SamePattern_SameRowPerm]", " [Fact=SamePattern]"};
+            unsigned f = (ck / 22) % 4; so.Fact = fm[f]; fact_note = fn[f]; if (f) cx.label(std::string("late-argument-with") + fn[f] + (so.Fact == FACTORED ? std::string(" equed=") + equed[0] : std::string())); }
         break; }
     case R_GSTRS: {
         int k = ck % 15;
@@ -151,6 +155,7 @@ template <class T> static void run_T(Choice &c, Ctx &cx)
     }
     bool nr_base = e.S.byrow;
     if ((routine == R_GSRFS || routine == R_GSEQU || routine == R_GEMV) && nr_base) applicable = false;
+    what += fact_note;
     std::string pair = std::string(rname[routine]) + "/" + what;
     if (cx.dump) { cx.d(fmt("routine=%s corruption=%s expected info=%lld n=%d nrhs=%d", rname[routine], what.c_str(), want, n, nrhs)); cx.d(opts_str(o, true)); cx.d(gmat_str(G, cplx)); }
     if (!applicable) { cx.label("not-applicable"); e.teardown(); ledger_clean(cx, "after the base call"); return; }
